@@ -726,6 +726,9 @@ def run_handle_survives(chk, spec):
 			"row-negative": lambda: t.__setitem__((-1, slice(None)), [30, 60, "w"]), "column": lambda: t.__setitem__((slice(None), "b"), [40, 50, 60]),
 			"region-table": lambda: t.__setitem__((slice(None), ["a", "b"]), other), "region-list": lambda: t.__setitem__((slice(0, 2), ["a", "b"]), [[7, 8], [40, 50]]),
 			"mask-rows": lambda: t.__setitem__(([True, False, True], "b"), 0), "scalar-broadcast": lambda: t.__setitem__((slice(None), slice(0, 2)), 9),
+			# (writes that promote the column's kind in place, and one that makes it nullable)
+			"cell-promotes": lambda: t.__setitem__((0, "b"), 0.5), "row-promotes": lambda: t.__setitem__(0, [10, 5.5, "z"]), "column-promotes": lambda: t.__setitem__((slice(None), "b"), [4.5, 5.5, 6.5]),
+			"region-promotes": lambda: t.__setitem__((slice(0, 2), ["a", "b"]), [[7, 8], [4.5, 5 + 1j]]), "cell-none": lambda: t.__setitem__((1, "b"), None), "mask-promotes": lambda: t.__setitem__(([True, False, True], "b"), 2.5),
 		}[spec["write"]])
 	chk.judged("pair", ("handle-survives", spec["handle"], spec["write"]))
 	if not w.ok:
@@ -744,6 +747,58 @@ def run_handle_survives(chk, spec):
 		chk.fail("a rename through a column obtained from a table renames that table's column", f"frame/handle-detached/{spec['write']}/rename-does-not-reach-table", f"{spec!r}: names {t.column_names()!r}")
 
 
+READERS = {
+	"column_names": lambda t: t.column_names(), "cols": lambda t: t.cols(), "dir": lambda t: dir(t), "list(t.a)": lambda t: list(t.a), "to_dict": lambda t: t.to_dict() if hasattr(t, "to_dict") else None,
+	"schema": lambda t: t.a.schema(), "shape": lambda t: t.shape, "tuple(row)": lambda t: list(t[0]), "vector-dir": lambda t: dir(t.a), "row-dir": lambda t: dir(t[0]),
+}
+
+
+def _spoil(x):
+	"""edit a returned container in place, as a caller that owns it may; True when something was edited"""
+	if isinstance(x, list):
+		x.reverse(); x.append("spoiled"); del x[0]
+		return True
+	if isinstance(x, dict):
+		x.clear(); x["spoiled"] = 1
+		return True
+	if isinstance(x, (set, bytearray)):
+		x.clear()
+		return True
+	return False
+
+
+def run_returned_container(chk, spec):
+	"""what a read-only call returns belongs to the caller: editing a returned list / dict in place changes nothing the table shows afterwards"""
+	import warnings
+	with warnings.catch_warnings():
+		warnings.simplefilter("ignore")
+		t = Table({"a": [1, 2, 3], "b": [4.5, None, 6.5], "c": ["p", "q", "r"]})
+		if spec["renamed"]:
+			t.rename_column("c", "see")
+		reader = READERS[spec["reader"]]
+		first = call(reader, t)
+		chk.judged("pair", ("returned-container", spec["reader"], spec["renamed"]))
+		if not first.ok or first.value is None:
+			chk.skip("reader-not-available")
+			return
+		import copy as _copy
+		kept = _copy.copy(first.value) if isinstance(first.value, (list, dict, set)) else first.value
+		snap = M.snap_any(t)
+		names = list(c._name for c in t._underlying)
+		if not _spoil(first.value):
+			chk.skip("returned-value-immutable")
+			return
+		again = call(reader, t)
+		after = M.snap_any(t)
+		if after != snap or [c._name for c in t._underlying] != names:
+			chk.fail("operations that return a new object never change their operands", f"frame/returned-container-is-internal/{spec['reader']}/table-changed", f"{spec!r}: editing the returned value changed the table: {short(snap, 200)} -> {short(after, 200)}")
+			return
+		same = again.ok and (again.value == kept if not isinstance(kept, list) or not kept or not hasattr(kept[0], "_underlying") else len(again.value) == len(kept))
+		if not same:
+			chk.fail("operations that return a new object never change their operands", f"frame/returned-container-is-internal/{spec['reader']}/later-call-differs",
+				f"{spec!r}: after the caller edited the first result in place, the same call gives {short(again.value if again.ok else again, 200)} instead of {short(kept, 200)}")
+
+
 def run_history(chk, spec):
 	m = pool.Machine(chk, spec["seed"], spec["nsteps"], spec.get("profile", "mixed"))
 	try:
@@ -752,7 +807,7 @@ def run_history(chk, spec):
 		chk.counters["history_steps"] += len(m.trace)
 
 
-RUNNERS = {"unnamed_keys": run_unnamed_keys, "handle_survives": run_handle_survives, "pure_cells": run_pure_cells, "refusal": run_refusal, "pair": run_pair, "history": run_history, "recompute": recompute.runner("C01")}
+RUNNERS = {"returned_container": run_returned_container, "unnamed_keys": run_unnamed_keys, "handle_survives": run_handle_survives, "pure_cells": run_pure_cells, "refusal": run_refusal, "pair": run_pair, "history": run_history, "recompute": recompute.runner("C01")}
 
 def setup(chk):
 	pool.CENSUS.install()
@@ -771,8 +826,11 @@ def run(chk):
 		for key in ("own-unnamed-column", "external-unnamed"):
 			chk.case("unnamed_keys", {"op": op, "key": key}, "unnamed-keys")
 	for handle in ("item", "attr", "cols"):
-		for write in ("cell", "row", "row-names", "row-negative", "column", "region-table", "region-list", "mask-rows", "scalar-broadcast"):
+		for write in ("cell", "row", "row-names", "row-negative", "column", "region-table", "region-list", "mask-rows", "scalar-broadcast", "cell-promotes", "row-promotes", "column-promotes", "region-promotes", "cell-none", "mask-promotes"):
 			chk.case("handle_survives", {"handle": handle, "write": write}, "handle-survives")
+	for reader in READERS:
+		for renamed in (False, True):
+			chk.case("returned_container", {"reader": reader, "renamed": renamed}, "returned-container")
 	for op in PURE_CELL_OPS:
 		for cell in CELL_MAKERS:
 			for n in ((3,) if chk.quick() else (1, 3, 6)):
